@@ -124,7 +124,7 @@ def c04b(ctx):
             return {mname}
         out = set()
         for x in f.walk():
-            if isinstance(x, ast.Call) and isinstance(x.func, ast.Attribute) and unparse(x.func.value) == 'self' and x.func.attr.startswith('_create'):
+            if isinstance(x, ast.Call) and isinstance(x.func, ast.Attribute) and same(x.func.value, 'self') and x.func.attr.startswith('_create'):
                 if x.func.attr != '_create_threaded':      # maps the creator passed as argument (checked separately)
                     out |= leaves(x.func.attr, seen + (mname,))
                 for a in x.args:
@@ -138,7 +138,7 @@ def c04b(ctx):
     branches = [v for v in rvals if isinstance(v, ast.Call)] + [v for nm in multi for v, sel in defs.of(nm)]
     ok = bool(branches)
     for b in branches:
-        if not (isinstance(b, ast.Call) and isinstance(b.func, ast.Attribute) and unparse(b.func.value) == 'self'):
+        if not (isinstance(b, ast.Call) and isinstance(b.func, ast.Attribute) and same(b.func.value, 'self')):
             ctx.bad('TileCreator.create_tiles:branch', 'created_tiles is assigned from %s, not from a creator method' % unparse(b)[:50], fn, b)
             continue
         lv = leaves(b.func.attr)
@@ -182,7 +182,7 @@ def c04c(ctx):
         calls = [x for x in f.walk() if is_call(x, 'self._meta_size')]
         # ... directly, or by delegating the alignment to a sibling that does (get_affected_level_tiles -> main_tile)
         direct = {v for v in users if any(is_call(x, 'self._meta_size') for x in ctx.fn('%s:MetaGrid.%s' % (G, v)).walk())}
-        via = [x for x in f.walk() if isinstance(x, ast.Call) and isinstance(x.func, ast.Attribute) and unparse(x.func.value) == 'self'
+        via = [x for x in f.walk() if isinstance(x, ast.Call) and isinstance(x.func, ast.Attribute) and same(x.func.value, 'self')
                and x.func.attr in direct and x.func.attr != u]
         ok = bool(calls) or bool(via)
         # the level argument is the level of the coordinate handled in that function
